@@ -201,7 +201,7 @@ Core* F(Handle* src, void* executor)
 __CPROVER_requires(__CPROVER_is_fresh(src, sizeof(*src)) && src->_core != 0 && g_makes == 0 && g_connects == 0)
 __CPROVER_assigns(g_makes, g_made_on, g_connects, g_conn_src, g_conn_p)
 /* one fresh contract (on the named executor, if any), its promise connected exactly once to the source (unit connect: attached or fulfilled at once), its future handed out; the source keeps what it had */
-__CPROVER_ensures(g_makes == 1 && g_connects == 1 && g_conn_src == src && g_conn_p == &g_fresh && RET == &g_fresh)
+__CPROVER_ensures(g_makes == 1 && g_connects == 1 && g_conn_src == src && g_conn_p == &g_fresh && RET == &g_fresh && g_made_on == (''' + ('executor' if nm.endswith('.on') else '(void*)0') + '''))
 {''' + c + '''}
 void harness(void) { ghost_reset(); g_makes = g_connects = 0; Handle* s; void* e; F(s, e); VF_CANARY("end"); }
 '''
